@@ -503,7 +503,7 @@ func main() {
 	}
 	// 2. generated programs
 	rnd := lib.Rand("c14-conc")
-	nProgs, perProg := 2, 45
+	nProgs, perProg := 2, 30
 	if lib.Thorough() {
 		nProgs, perProg = 10, 60
 	}
